@@ -126,6 +126,17 @@ func genC01(o *hx.Out, tier string) {
 	{
 		md := shipped("minimal")
 		mdrw := defineDialect(o, "minimal", md)
+		// frames of one message type whose zero-truncated payloads get shorter and longer again
+		for rep := 0; rep < 12; rep++ {
+			proto := md.Messages[rep%len(md.Messages)]
+			var st []byte
+			for _, mode := range []int{1, 0, 2, 1, 2, 0, 1} {
+				bs, _ := writeFrame(mdrw, validFrame(r, mdrw, hx.RandMessage(r, proto, mode), true, nil))
+				st = append(st, bs...)
+			}
+			cs := one(st)
+			o.AddLater("read frames of one type, lengths varying", hx.ReadAllLater(cs, mdrw, nil, nil), "fread", "minimal", "-", hx.ChunksText(cs))
+		}
 		for _, st := range refusedThenAccepted(r, md, mdrw, 30) {
 			for _, cs := range [][]hx.Chunk{one(st), splitRandom(r, st)} {
 				o.AddLater("read after a refused frame", hx.ReadAllLater(cs, mdrw, nil, nil), "fread", "minimal", "-", hx.ChunksText(cs))
